@@ -219,12 +219,14 @@ def systematic_resample(
     positions = (np.random.random() + np.arange(size)) / size
 
     j = 0
-    j_max = len(weights) - 1
+    # Index j owns the half-open cell [C_{j-1}, C_j); the last index of positive
+    # weight also absorbs any rounding shortfall of the running sum below 1
+    # (trailing zero-weight entries must never be selected).
+    positive = np.flatnonzero(np.asarray(weights) > 0)
+    j_max = positive[-1] if len(positive) else len(weights) - 1
     cumulative_sum = weights[0]
     indeces = np.empty(size, dtype=int)
     for i in range(size):
-        # Index j owns the half-open cell [C_{j-1}, C_j); the last index also
-        # absorbs any rounding shortfall of the running sum below 1.
         while j < j_max and positions[i] >= cumulative_sum:
             j += 1
             cumulative_sum += weights[j]
